@@ -95,6 +95,7 @@ type Exec struct {
 	unwind     int
 	sliceBound int
 	timers     []*Obj
+	splitVars  []string
 	harness    string
 	funcs      map[string]int
 	finfo      map[*ssa.Function]*FuncInfo
@@ -402,6 +403,7 @@ func (x *Exec) callFunction(caller *Frame, fn *ssa.Function, args []Value, binds
 		fr := caller
 		save := fr.cur
 		fr.cur = g
+		stubGuard = g
 		r := st(x, fr, fn, args, p)
 		fr.cur = save
 		return r
